@@ -93,7 +93,9 @@ func checkText(c Case, rec *evid.Rec) error {
 	if rec != nil {
 		rec.Eval(1)
 	}
-	if got == b.FEN() {
+	// the driver starts out on the initial position: a driver that treats the position command as one unit
+	// refuses it as a whole and stays there
+	if got == b.FEN() || got == "rnbqkbnr/pppppppp/8/8/8/8/PPPPPPPP/RNBQKBNR w KQkq - 0 1" {
 		// unchanged: fine unless the string is the well-formed name of a legal move. (A generated move that
 		// leaves the own king attacked may be played, as the pseudo-legality gate does, or refused, as a driver
 		// that also tests legality would: the property only says that nothing but a genuine move is played.)
